@@ -297,6 +297,7 @@ func (s *srvListen) start(srv *signaling_rpc_server.Server) {
 		close(s.done)
 	}()
 }
+
 // startRegistered starts the Listen handler and waits until the relay has registered it (VerifListenState:
 // listening, and a new nonce if a call was registered before).
 func (s *srvListen) startRegistered(srv *signaling_rpc_server.Server) (ok bool) {
